@@ -199,9 +199,10 @@ theorem RowsAgree.vrow {on : List String} {name : String} {A A' : Rows} (h : Row
 
 /-- **what `_item` keeps**: the rows of the input, on the key columns and the value column -/
 theorem item_rows (d t : Table) (key : String) (on : List String) (hd : d.WF)
-    (hon : ∀ c ∈ on, c ∈ d.cols) (hkey : key ∉ on) (h : item d key on = .ok t) :
+    (hdn : d.cols.Nodup) (hon : ∀ c ∈ on, c ∈ d.cols) (hkey : key ∉ on)
+    (h : item d key on = .ok t) :
     KeyedSrc on t key ∧ RowsAgree on key t.R (inputRows on key d) := by
-  obtain ⟨hk, hn, hcells, vc, hvc1, hvc2, hval, hcase⟩ := item_sem d t key on hd hon hkey h
+  obtain ⟨hk, hn, hcells, vc, hvc1, hvc2, hval, hcase⟩ := item_sem d t key on hd hdn hon hkey h
   have hvc : valueCol d key on = vc := by
     simp only [valueCol]
     rcases hcase with h1 | ⟨h1, h2⟩ | ⟨h1, h2, h3⟩
